@@ -363,17 +363,18 @@ def yq(s):
 
 
 class Desc:
-    def __init__(self, did, cmds, targets, nodes=None, default=None):
+    def __init__(self, did, cmds, targets, nodes=None, default=None, fs=None):
         self.id = did
         self.cmds = list(cmds)
         self.targets = dict(targets)          # name -> [nodes]
         self.nodes = dict(nodes or {})        # node -> {attr: value}
         self.default = default
+        self.fs = fs                          # client `file-system:` (None: key absent = default mode)
         self._prod = None
 
     def copy(self, did):
         return Desc(did, [c.copy() for c in self.cmds], {k: list(v) for k, v in self.targets.items()},
-                    {k: dict(v) for k, v in self.nodes.items()}, self.default)
+                    {k: dict(v) for k, v in self.nodes.items()}, self.default, self.fs)
 
     def cmd(self, name):
         for c in self.cmds:
@@ -453,7 +454,10 @@ class Desc:
         return res
 
     def yaml(self):
-        L = ["client:", "  name: basic", "targets:"]
+        L = ["client:", "  name: basic"]
+        if self.fs is not None:
+            L.append("  file-system: %s" % self.fs)
+        L.append("targets:")
         for t in self.targets:
             L.append("  %s: [%s]" % (yq(t), ", ".join(yq(n) for n in self.targets[t])))
         if self.default is not None:
